@@ -99,3 +99,13 @@ func Match(c *core.Case) string {
 	}
 	return ""
 }
+
+// Open reports whether the finding with this id is listed as open.
+func Open(id string) bool {
+	for _, f := range Load() {
+		if f.ID == id {
+			return true
+		}
+	}
+	return false
+}
